@@ -126,10 +126,27 @@ def run(tier, seed):
         ca, cb, rac = rng.uniform(0.5, 2.0), rng.choice([0.25, 1 / 3, 0.3]), rng.uniform(500, 2000)
         dts = np.sort(10 ** np.array([rng.uniform(-3, 4) for _ in range(8)]))
         eta = 10 ** rng.choice([rng.uniform(12, 24), rng.uniform(-4, 3)])       # solid-state creep and liquid-like viscosities
+        dts_keep = dts.copy()
         flux = np.asarray(CM.convection(dts, eta, k, kappa, alpha_e, thick, g, rho, ca, cb, rac)[0])
         cond = np.asarray(CM.conduction(dts, k, thick)[0])
         ck.case(("chain-dT", t), True)
-        det = {"thickness": thick, "viscosity": eta, "dT": dts.tolist(), "alpha,beta,Rac": [ca, cb, rac]}
+        det = {"thickness": thick, "viscosity": eta, "dT": dts_keep.tolist(), "alpha,beta,Rac": [ca, cb, rac]}
+        # the caller's temperature-contrast array is an input: untouched, not returned, and a second call gives the same fluxes
+        for fname, res in (("convection", flux), ("conduction", cond)):
+            if res is dts or np.shares_memory(res, dts):
+                ck.violation({"fn": fname, "clause": "inputs_unmodified", "what": "aliased"}, "%s returns (a view of) the caller's delta_temp array as its flux" % fname, det)
+        if not np.array_equal(dts, dts_keep):
+            ck.violation({"fn": "cooling", "clause": "inputs_unmodified", "what": "overwritten"}, "convection / conduction changed the caller's delta_temp array: %s -> %s" % (dts_keep.tolist()[:3], dts.tolist()[:3]), det)
+            dts = dts_keep.copy()
+        cond_again = np.array(CM.conduction(dts, k, thick)[0], dtype=float, copy=True)
+        flux_again = np.array(CM.convection(dts, eta, k, kappa, alpha_e, thick, g, rho, ca, cb, rac)[0], dtype=float, copy=True)
+        if not (np.allclose(cond_again, k * dts_keep / thick, rtol=1e-12, atol=0) and np.allclose(flux_again, np.asarray(flux, dtype=float), rtol=1e-12, atol=0)):
+            ck.violation({"fn": "cooling", "clause": "repeat_call"}, "a second conduction / convection call on the same delta_temp array differs: conduction %s, k dT / d %s" % (
+                cond_again.tolist()[:3], (k * dts_keep / thick).tolist()[:3]), det)
+            dts = dts_keep.copy()
+        cs = float(np.asarray(CM.conduction(float(dts_keep[4]), k, thick)[0]))
+        if abs(cs - float(np.asarray(cond).ravel()[4])) > 1e-12 * abs(cs) or abs(cs - k * float(dts_keep[4]) / thick) > 1e-12 * abs(cs):
+            ck.violation({"fn": "conduction", "clause": "scalar_array"}, "conduction scalar call %r, array element %r, k dT / d %r" % (cs, float(np.asarray(cond).ravel()[4]), k * float(dts_keep[4]) / thick), det)
         if np.any(flux <= 0) or np.any(np.diff(flux) < -1e-12 * flux[1:]):
             ck.violation({"fn": "convection", "clause": "monotone_in_contrast"}, "convective flux not positive / non-decreasing in dT: %s" % flux.tolist(), det)
         if np.any(flux < cond * (1 - 1e-12)):
@@ -147,9 +164,13 @@ def run(tier, seed):
         Ts = np.sort(np.array([rng.uniform(150, 2500) for _ in range(8)]))
         P = rng.choice([0.0, 1e9, 5e10])
         E, V = rng.uniform(5e4, 6e5), rng.uniform(0, 1e-5)
+        Ts_keep = Ts.copy()
         va = np.asarray(VM.arrhenius(Ts, P, 10 ** rng.uniform(-15, -5), False, 1.0, 1.0, 1.0, 1.0, E, V))
         vr = np.asarray(VM.reference(Ts, P, 10 ** rng.uniform(15, 24), rng.uniform(200, 1800), E, V))
         ck.case(("chain-T", t), True)
+        if not np.array_equal(Ts, Ts_keep) or any(np.shares_memory(v, Ts) for v in (va, vr)):
+            ck.violation({"fn": "viscosity", "clause": "inputs_unmodified"}, "a viscosity law changed / returned the caller's temperature array", {"T": Ts_keep.tolist()})
+            Ts = Ts_keep.copy()
         for nm, v in (("arrhenius", va), ("reference", vr)):
             if np.any(np.diff(v) > 1e-12 * v[:-1]) or np.any(v <= 0) or not np.all(np.isfinite(v)):
                 ck.violation({"fn": nm, "clause": "viscosity_monotone_in_temperature"}, "%s viscosity not non-increasing in T: %s at T=%s" % (nm, v.tolist(), Ts.tolist()),
@@ -177,6 +198,9 @@ def run(tier, seed):
         sv, ss = MM.spohn(phis, T, lv, ls)
         if np.any(np.asarray(sv) < lv) or np.any(np.asarray(ss) < ls):
             ck.violation({"fn": "spohn", "clause": "floor"}, "spohn below liquid values", det)
+        if not np.array_equal(phis, np.linspace(0, 1, 41)) or any(np.shares_memory(np.asarray(v), phis) for v in (hv, hs, sv, ss)):
+            ck.violation({"fn": "melting", "clause": "inputs_unmodified"}, "a partial-melt law changed / returned the caller's melt-fraction array", det)
+            phis = np.linspace(0, 1, 41)
         ov, os_ = MM.off(phis, pv, ps)
         if np.any(np.asarray(ov) != pv) or np.any(np.asarray(os_) != ps):
             ck.violation({"fn": "off", "clause": "premelt_at_zero_melt"}, "melting 'off' changes the values", det)
